@@ -1,6 +1,6 @@
-(* Extraction of the hand-written exact models (parser, JSON round trip, cache machine).
-   ExtrOcamlBasic only; ascii / nat / N / Z stay extracted inductive datatypes. *)
+(* Extraction of the hand-written exact models (parser, species I/O).
+   ExtrOcamlBasic only; ascii / string / nat / N / Z stay extracted inductive datatypes. *)
 From Coq Require Extraction.
 From Coq Require Import ExtrOcamlBasic.
-From MPC Require Import Parser.
-Extraction "kernels_models.ml" nist_string nist_energy_levels.
+From MPC Require Import Parser SpeciesIO SpeciesIOInst.
+Extraction "kernels_models.ml" nist_string nist_energy_levels SaveLoad Construct class_by_name norm_obj.
